@@ -34,26 +34,26 @@ def run(ctx):
         prog, info = load_program(cfg, "e57")
         ctx.configs[cfg] = info
         ctx.cfg = cfg
-        layout_rules.layouts(ctx, prog, "R1")
+        ctx.call(layout_rules.layouts, prog, "R1")
         if cfg == "lib":
-            xml_rules.vocabulary(ctx, prog, "R2", "R3")
-            xml_rules.record_name_tables(ctx, prog, "R2")
-            xml_rules.type_attributes(ctx, prog, "R2")
-            xml_rules.inverse_maps(ctx, prog, "R7", "R7", "R7")
-            xml_rules.escaping_gate(ctx, prog, "R3")
-        header_rules.publication_order(ctx, prog, "R4")
-        pcw_rules.data_offset_provenance(ctx, prog, "R5")
-        pcw_rules.packet_rules(ctx, prog, "R5", "R5", "R5")
-        pcw_rules.finalize_protocol(ctx, prog, "R5")
-        pcw_rules.accept_once(ctx, prog, "R5")
-        bounds_rules.validation_before_update(ctx, prog, "R5")
-        blob_rules.write_protocol(ctx, prog, "R5")
-        page_rules.seal_before_emit(ctx, prog, "R6", "table" if cfg == "lib" else "crate")
-        page_rules.flush_before_seek(ctx, prog, "R6")
-        page_rules.reload_after_advance(ctx, prog, "R6")
-        page_rules.flush_protocol(ctx, prog, "R6")
-        page_rules.constants_agree(ctx, prog, "R6")
-        page_rules.read_current_page_shape(ctx, prog, "R6")
+            ctx.call(xml_rules.vocabulary, prog, "R2", "R3")
+            ctx.call(xml_rules.record_name_tables, prog, "R2")
+            ctx.call(xml_rules.type_attributes, prog, "R2")
+            ctx.call(xml_rules.inverse_maps, prog, "R7", "R7", "R7")
+            ctx.call(xml_rules.escaping_gate, prog, "R3")
+        ctx.call(header_rules.publication_order, prog, "R4")
+        ctx.call(pcw_rules.data_offset_provenance, prog, "R5")
+        ctx.call(pcw_rules.packet_rules, prog, "R5", "R5", "R5")
+        ctx.call(pcw_rules.finalize_protocol, prog, "R5")
+        ctx.call(pcw_rules.accept_once, prog, "R5")
+        ctx.call(bounds_rules.validation_before_update, prog, "R5")
+        ctx.call(blob_rules.write_protocol, prog, "R5")
+        ctx.call(page_rules.seal_before_emit, prog, "R6", "table" if cfg == "lib" else "crate")
+        ctx.call(page_rules.flush_before_seek, prog, "R6")
+        ctx.call(page_rules.reload_after_advance, prog, "R6")
+        ctx.call(page_rules.flush_protocol, prog, "R6")
+        ctx.call(page_rules.constants_agree, prog, "R6")
+        ctx.call(page_rules.read_current_page_shape, prog, "R6")
         if cfg == "lib":
-            crc_rules.crc32c_shape(ctx, prog, "R6")
+            ctx.call(crc_rules.crc32c_shape, prog, "R6")
     ctx.cfg = None
